@@ -3,10 +3,11 @@ import os
 import random
 import shutil
 import tempfile
+import zlib
 
 from engine import gen_states, pool_map
 from props.coords_common import segs_of, cigar_for, nid
-from readers import eol_for, gaf_record, line_at, load_pickle, read_text, run_cli, write_text
+from readers import join_lines, gaf_record, line_at, load_pickle, read_text, run_cli, write_text
 
 
 def gfa_text(segs, links):
@@ -40,7 +41,8 @@ def make_records(segs, walks, rnd):
             # byte offsets and character offsets of the following records then differ
             uni = "\u00e9" if wi % 3 == 1 else ""
             tail = "\tzd:Z:a\u00f1b" if wi % 3 == 2 else ""
-            lines.append(f"q{wi}{uni}_{ps}_{pe}\t{L + 2}\t1\t{L + 1}\t+\t{path}\t{plen}\t{ps}\t{pe}\t{a}\t{L}\t{(ps * 7 + pe) % 61}\ttp:A:P\tcg:Z:{cg}\tNM:i:3{tail}")
+            pre = ["q", "q", "@q", "#q", "7"][wi % 5]          # read names are free text (FASTQ-style '@', '#', leading digit)
+            lines.append(f"{pre}{wi}{uni}_{ps}_{pe}\t{L + 2}\t1\t{L + 1}\t+\t{path}\t{plen}\t{ps}\t{pe}\t{a}\t{L}\t{(ps * 7 + pe) % 61}\ttp:A:P\tcg:Z:{cg}\tNM:i:3{tail}")
     rnd.shuffle(lines)
     return lines
 
@@ -94,6 +96,9 @@ def index_projection(gvi, gaf, lines, bgzf):
 
 def run_session(job):
     sid, st, mode, storage, gfa_gz, seed, opts = job
+    import readers as _rd
+
+    _rd.CASE = str(sid)
     rnd = random.Random(seed)
     d = tempfile.mkdtemp(prefix="view_")
     bgzf = storage == "bgzf"
@@ -109,7 +114,7 @@ def run_session(job):
         ulines = make_records(segs, st["walks"], rnd)
         ext = ".gz" if bgzf else ""
         U = os.path.join(d, "u.gaf" + ext)
-        write_text(U, "\n".join(ulines) + eol_for(sid), storage, block=opts.get("block", 300))
+        write_text(U, join_lines(ulines, sid), storage, block=opts.get("block", 300))
         cases = []
         # whole-file conversions (also the reference for --format selections)
         cs = os.path.join(d, "conv_s.gaf")
@@ -118,7 +123,7 @@ def run_session(job):
         files = [("unstable", U, ulines)]
         if slines is not None and len(slines) == len(ulines):
             S = os.path.join(d, "s.gaf" + ext)
-            write_text(S, "\n".join(slines) + eol_for(sid), storage, block=opts.get("block", 300))
+            write_text(S, join_lines(slines, sid), storage, block=opts.get("block", 300))
             files.append(("stable", S, slines))
         for fmt, F, lines in files:
             other = "stable" if fmt == "unstable" else "unstable"
@@ -138,15 +143,29 @@ def run_session(job):
                     c["idx"], c["refctg"] = index_projection(gvi, F, lines, bgzf)
             elif c["index_status"] == "ok":
                 o = os.path.join(d, "out.gaf")
+                iargs = []
+                if zlib.crc32(f"{sid}.{fmt}".encode()) % 3 == 0 and len(lines) > 1:
+                    # the index is asked for at another place (index -o / view -i) while the default location holds a STALE
+                    # one (made for the same records in reverse order): the index named on the command line must be used
+                    alt = os.path.join(d, "idx_" + fmt, "other.name.gvi")
+                    os.makedirs(os.path.dirname(alt), exist_ok=True)
+                    r2 = run_cli(["index", F, gfa, "-o", alt])
+                    rev = os.path.join(d, "rev_" + fmt + ".gaf")
+                    write_text(rev, "\n".join(reversed(lines)) + "\n")
+                    r3 = run_cli(["index", rev, gfa, "-o", gvi])
+                    if r2["status"] == "ok" and r3["status"] == "ok" and os.path.exists(alt):
+                        iargs = ["-i", alt]
+                    else:
+                        run_cli(["index", F, gfa])
 
                 def view(args, ref):
                     if os.path.exists(o):
                         os.unlink(o)
-                    r = run_cli(["view", F, "-o", o] + args, timeout=1.5)
+                    r = run_cli(["view", F, "-o", o] + iargs + args, timeout=1.5)
                     if r["status"] == "timeout":  # a loaded machine must not look like non-termination: ask again, patiently
                         if os.path.exists(o):
                             os.unlink(o)
-                        r = run_cli(["view", F, "-o", o] + args, timeout=8)
+                        r = run_cli(["view", F, "-o", o] + iargs + args, timeout=8)
                     txt = open(o).read() if os.path.exists(o) else ""
                     return r["status"], positions(txt, ref or [])
 
